@@ -146,7 +146,7 @@ func init() {
 		}
 	})
 
-	reg("C19-R1", "guard table: log buffer state under LogManager.latch, flush buffer / persistentLSN under wlogMutex, TransactionManager.nextTxnID under its mutex, Catalog.tableIDs / tableNames under their mutexes; Page.pinCount is touched only through sync/atomic", func(w *World, r *Report) {
+	reg("C19-R1/log", "guard table (log): log buffer state (offset, logBufferLSN, nextLSN, logBuffer) under LogManager.latch; flushBuffer / persistentLSN under wlogMutex", func(w *World, r *Report) {
 		runGuardSpec(w, r, guardSpec{pkg: "recovery", typ: "LogManager", lock: "latch",
 			fields: []string{"offset", "logBufferLSN", "nextLSN", "logBuffer"},
 			exempt: map[string]string{"GetNextLSN": "start-up / test accessor", "SetNextLSN": "start-up only (NewSamehadaDB, before logging is activated)"},
@@ -158,59 +158,23 @@ func init() {
 			fields:      []string{"flushBuffer", "persistentLSN"},
 			exempt:      map[string]string{"GetPersistentLSN": "test accessor"},
 			minAccesses: 4})
+	})
+
+	reg("C19-R1/txnid", "guard table (transaction ids): TransactionManager.nextTxnID is read and written only under TransactionManager.mutex (lock holders are identified by transaction id, so ids must be unique)", func(w *World, r *Report) {
 		runGuardSpec(w, r, guardSpec{pkg: "storage/access", typ: "TransactionManager", lock: "mutex",
 			fields: []string{"nextTxnID"}, minAccesses: 2})
+	})
+
+	reg("C19-R1/catalog", "guard table (catalog): Catalog.tableIDs / tableNames under their mutexes; nextTableID only through sync/atomic", func(w *World, r *Report) {
 		runGuardSpec(w, r, guardSpec{pkg: "catalog", typ: "Catalog", lock: "tableIDsMutex",
 			fields: []string{"tableIDs"}, minAccesses: 4})
 		runGuardSpec(w, r, guardSpec{pkg: "catalog", typ: "Catalog", lock: "tableNamesMutex",
 			fields: []string{"tableNames"}, minAccesses: 2})
-		// nextTableID only through sync/atomic (C10-R2)
-		next := w.Field("catalog", "Catalog", "nextTableID")
-		pin := w.Field("storage/page", "Page", "pinCount")
-		for _, f := range []*types.Var{next, pin} {
-			n := 0
-			for _, fn := range w.RepoFuncs {
-				if w.IsTestFunc(fn) {
-					continue
-				}
-				for _, b := range fn.Blocks {
-					for _, in := range b.Instrs {
-						fa, ok := in.(*ssa.FieldAddr)
-						if !ok {
-							continue
-						}
-						sst, ok := derefStruct(fa.X.Type())
-						if !ok || sst.Field(fa.Field) != f {
-							continue
-						}
-						n++
-						// every referrer is a call into sync/atomic
-						okAll := true
-						refs := fa.Referrers()
-						if refs == nil || len(*refs) == 0 {
-							okAll = false
-						}
-						for _, ref := range *refs {
-							c, isCall := ref.(*ssa.Call)
-							if !isCall {
-								okAll = false
-								continue
-							}
-							o := CalleeObj(c)
-							if o == nil || o.Pkg() == nil || o.Pkg().Path() != "sync/atomic" {
-								okAll = false
-							}
-						}
-						k := funcKey(topFunc(fn))
-						if strings.HasSuffix(k, ".New") || strings.HasSuffix(k, ".NewEmpty") || strings.Contains(k, "BootstrapCatalog") || strings.Contains(k, "RecoveryCatalogFromCatalogPage") {
-							continue // composite literal initialisation in the constructor
-						}
-						r.Check(okAll, "atomic-only:"+f.Name()+":"+k, f.Name()+" is accessed only through sync/atomic", fmt.Sprintf("%s accesses %s non-atomically at %s", k, f.Name(), w.InstrPos(in)))
-					}
-				}
-			}
-			r.Floor("accesses of "+f.Name(), n, 2)
-		}
+		atomicOnly(w, r, w.Field("catalog", "Catalog", "nextTableID"))
+	})
+
+	reg("C19-R1/pin", "Page.pinCount is touched only through sync/atomic", func(w *World, r *Report) {
+		atomicOnly(w, r, w.Field("storage/page", "Page", "pinCount"))
 	})
 
 	reg("C17-R2", "index wrappers: every use of the container happens under the wrapper lock (updateMtx / rwMtx); the *Inner helpers take it shared unless called with isNoLock=true, which only UpdateEntry does while holding it exclusively", func(w *World, r *Report) {
@@ -365,4 +329,50 @@ func init() {
 		}
 		r.Floor("index implementors", n, 4)
 	})
+}
+
+// atomicOnly: every address-of of field f (outside constructors) flows only into sync/atomic calls.
+func atomicOnly(w *World, r *Report, f *types.Var) {
+	n := 0
+	for _, fn := range w.RepoFuncs {
+		if w.IsTestFunc(fn) {
+			continue
+		}
+		for _, b := range fn.Blocks {
+			for _, in := range b.Instrs {
+				fa, ok := in.(*ssa.FieldAddr)
+				if !ok {
+					continue
+				}
+				sst, ok := derefStruct(fa.X.Type())
+				if !ok || sst.Field(fa.Field) != f {
+					continue
+				}
+				n++
+				okAll := true
+				refs := fa.Referrers()
+				if refs == nil || len(*refs) == 0 {
+					okAll = false
+				} else {
+					for _, ref := range *refs {
+						c, isCall := ref.(*ssa.Call)
+						if !isCall {
+							okAll = false
+							continue
+						}
+						o := CalleeObj(c)
+						if o == nil || o.Pkg() == nil || o.Pkg().Path() != "sync/atomic" {
+							okAll = false
+						}
+					}
+				}
+				k := funcKey(topFunc(fn))
+				if strings.HasSuffix(k, ".New") || strings.HasSuffix(k, ".NewEmpty") || strings.Contains(k, "BootstrapCatalog") || strings.Contains(k, "RecoveryCatalogFromCatalogPage") {
+					continue // composite literal initialisation in the constructor
+				}
+				r.Check(okAll, "atomic-only:"+f.Name()+":"+k, f.Name()+" is accessed only through sync/atomic", fmt.Sprintf("%s accesses %s non-atomically at %s", k, f.Name(), w.InstrPos(in)))
+			}
+		}
+	}
+	r.Floor("accesses of "+f.Name(), n, 2)
 }
